@@ -14,9 +14,14 @@ frame for something else (another Ethernet type for an 802.1Q tag, another IP fl
   transport header starts after `IHL * 4` bytes (options skipped) and is only there when the fragment offset is zero.
 * `0x0806`: ARP for IPv4 over Ethernet (hardware type 1, length 6; protocol 0x0800, length 4).
 
-`parse` returns the description and whether the frame is *complete*: every header its type fields promise is there in full and
-well-formed — only then does the standard say what the twelve header fields are.  (Left out, conservatively: LLC with an I- or S-format control field, the
-group-bit variants of the SNAP SAPs, a length field behind SNAP or behind a tag, TCP options other than NOP padding.)
+* TCP (RFC 793): the ports are the first four octets of the header.  The header is there in full when the data offset says at least
+  20 octets and no more than the segment holds.  What the option area contains — well-formed options, unknown kinds, an option whose
+  length octet is 0, 1 or runs past the header — has no bearing on the ports: OpenFlow 1.0 takes tp_src / tp_dst from the TCP header
+  of every unfragmented TCP segment, it does not parse options.
+
+`parse` returns the description and whether the frame is *complete*: every header its type fields promise is there in full — only
+then does the standard say what the twelve header fields are.  (Left out, conservatively: LLC with an I- or S-format control field,
+the group-bit variants of the SNAP SAPs, a length field behind SNAP or behind a tag.)
 `parse_regular`: a complete frame's description satisfies the side condition `regularG false` of the extraction / lookup theorems. -/
 namespace Pox.Spec.Frame
 open Pox.OF
@@ -34,7 +39,7 @@ def l4 (proto fo : Nat) (frag : Bool) (pay : List Nat) : L4 × Bool :=
     if 8 ≤ pay.length then (.ports (be (slice pay 0 2)) (be (slice pay 2 4)), true) else (.none, frag)
   else if proto = 6 then
     let doff := (pay.getD 12 0 / 16) * 4
-    if 20 ≤ pay.length ∧ 20 ≤ doff ∧ doff ≤ pay.length ∧ (slice pay 20 doff).all (· == 1) then
+    if 20 ≤ pay.length ∧ 20 ≤ doff ∧ doff ≤ pay.length then
       (.ports (be (slice pay 0 2)) (be (slice pay 2 4)), true)
     else (.none, frag)
   else if proto = 1 then
